@@ -165,6 +165,29 @@ def run(ctx, crate):
                               False, site=s.where, expected="sort (or BTree collection) between the unordered source and the ordered sink",
                               found="source %s at %s; sink receiver %s" % (show(it)[:80], lp.site.where, show(root)[:80]),
                               example="two runs over the same directory; or the same files created in a different order"))
+    # order-sensitive operations (dedup of neighbours, first/last, truncation, positional access) on a discovery- / hash-ordered list
+    # before it is sorted make the result depend on the discovery order
+    SENSITIVE = ("dedup", "dedup_by", "dedup_by_key", "truncate", "pop", "first", "last", "remove", "swap_remove", "split_off", "drain", "get", "index",
+                 "chunks", "windows", "split_first", "split_last", "insert")
+    for b in sc.values():
+        if b.derived or not is_generator(b):
+            continue
+        for s in S.call_sites(b):
+            if not s.args:
+                continue
+            nm = s.path.rsplit("::", 1)[-1]
+            if nm not in SENSITIVE or not s.path.startswith(("std::vec::Vec::", "core::slice::", "std::slice::", "std::ops::Index")):
+                continue
+            obj = s.args[0]
+            cs = collect_site(b, obj, crate)
+            unordered = (cs is not None and cs.fn and O.iter_order(cs.fn["gargs"][0]) == "hash") or rooted_at_param(obj)
+            if not unordered:
+                continue
+            if O.sorted_before(b, obj, s.bb) is not None:
+                continue
+            obs.append(Ob("R13.taint", b.path, "order-sensitive %s on a list that is still in discovery order" % nm, False, site=s.where,
+                          expected="sort before any operation that looks at neighbours or positions", found="%s(%s)" % (nm, show(obj)[:60]),
+                          example="two identical (file, lines) entries with another file discovered between them"))
     # consumers of the deferred listing order
     if any(o.rule == "R13.deferred" for o in obs):
         for g in gens:
